@@ -141,6 +141,8 @@ def run(prog, rep, tier, repo):
                     # a predicate call): which values pass is not read
                     rep.undecided('setter-agree', key, '%s validates `%s` through %s: the accepted set is not read' % (
                         short(sk), show(v)[:20], '; '.join(show_guard(g)[:60] for g in opaque[:2])), site_of(st.body), proof=False)
+                elif om.new_unread:
+                    rep.undecided('setter-agree', key, om.new_unread, site_of(st.body), proof=False)
                 else:
                     missing = want - got
                     extra = got - want
@@ -282,6 +284,9 @@ def _check_update(prog, rep, sm, om, uf, param_fields, derived):
     if opaque and not stale and (want - got) and not any(g[0] == 'cond' for g in want):
         rep.undecided('update', key, 'a new value is validated through %s: the accepted set is not read' % '; '.join(show_guard(g)[:60] for g in opaque[:2]),
                       site_of(uf.body), proof=False)
+        return
+    if om.new_unread and not stale and want != got and not problems:
+        rep.undecided('update', key, om.new_unread, site_of(uf.body), proof=False)
         return
     if stale:
         problems.append('a new value is validated against a field of the object as it was before the update ({%s}): a valid parameter set can be '
